@@ -93,6 +93,8 @@ def configs(tier):
     # delay(interval): the same forwarding coroutine over an unbounded queue, pacing its emissions
     for cons in ("future", "sync"):
         cfgs.append({"kind": "delay", "interval": 2, "cons": [cons], "max_elems": 4 if tier == "quick" else 5, "idle_wait": True})
+    # callbacks one at a time: emissions and consumer completions fall between two callbacks of one loop iteration
+    cfgs.append({"kind": "buffer", "n": 1, "cons": ["future"], "max_elems": 4 if tier == "quick" else 5, "fine": True})
     # falsy payloads (None, 0) are elements like any other
     cfgs.append({"kind": "buffer", "n": 1, "cons": ["future"], "max_elems": 4 if tier == "quick" else 5, "falsy": {"none": 2, "zero": 3}})
     return cfgs
